@@ -223,7 +223,7 @@ class AtomicTransaction(StoreTransaction):
                 attempts, max_attempts, version
             ) VALUES (
                 :message_id, :message_type, :payload, :deliver_at,
-                0, :max_attempts, 0
+                :attempts, :max_attempts, 0
             )
             """,
             {
@@ -231,6 +231,10 @@ class AtomicTransaction(StoreTransaction):
                 "message_type": message_type,
                 "payload": payload,
                 "deliver_at": deliver_at.isoformat(),
+                # Carry the attempt count of a retry copy (copy_with_attempts)
+                # in the row: the payload field is dropped on read and poll
+                # derives message.attempts from this column. Fresh messages have 0.
+                "attempts": getattr(message, "attempts", 0) or 0,
                 "max_attempts": getattr(message, "max_attempts", 10),
             },
         )
